@@ -33,10 +33,11 @@ import (
 )
 
 type Tuple struct {
-	Op    string `json:"op"`
-	Pt    string `json:"pt"`
-	Kind  string `json:"kind"`
-	Noise string `json:"noise"`
+	Op       string `json:"op"`
+	Pt       string `json:"pt"`
+	Kind     string `json:"kind"`
+	Noise    string `json:"noise"`
+	Datagram bool   `json:"datagram"`
 }
 
 type Rec struct {
@@ -55,7 +56,8 @@ type Rec struct {
 	Done      bool   `json:"done"`     // Done() completed
 	OnClose   []int  `json:"onclose"`  // how often each registered on-close callback ran
 	Panics    int    `json:"panics"`
-	Others    bool   `json:"others"` // the other calls in flight (e.g. the one occupying the limiter) returned too
+	ByNoise   bool   `json:"bynoise"` // the peer's garbage ended the connection (and the call) before the interruption was fired
+	Others    bool   `json:"others"`  // the other calls in flight (e.g. the one occupying the limiter) returned too
 }
 
 const wd = 2 * time.Second
@@ -79,7 +81,7 @@ type conn interface {
 	done() <-chan struct{}
 	addOnClose(f func())
 	isStream() bool
-	noise() // the peer misbehaves: malformed input that must not end the connection, answers nobody waits for
+	noise(level string) // the peer misbehaves: malformed input that must not end the connection, answers nobody waits for
 	shutdown()
 }
 
@@ -206,19 +208,32 @@ func runTuple(transport string, t Tuple) Rec {
 			})
 		}
 	}
-	// occupy the limiter so that the call under test queues behind it
+	// occupy the slot the call under test has to wait for: the limiter's endpoint slot (same path, endpoint limit 1)
+	// or the NSTART slot of a datagram connection (another path, NSTART 1, request sent but never acknowledged)
 	var occ chan error
 	occCtx, occCancel := context.WithCancel(context.Background())
 	defer occCancel()
-	if t.Pt == "queued" {
+	occPath, wPath := "/op", "/op"
+	if t.Op == "obscancel" {
+		occPath, wPath = "/obs", "/obs" // the deregistration is a request for the observed path
+	}
+	if t.Pt == "nstart" {
+		occPath, wPath = "/occ", "/w"
+	}
+	if t.Pt == "queued" || t.Pt == "nstart" {
 		occ = make(chan error, 1)
-		go func() { occ <- c.get(occCtx, "/op") }() // same path: the endpoint limit (1) applies
-		if _, _, _, ok := c.waitRequest("/op", -1); !ok {
+		go func() { occ <- c.get(occCtx, occPath) }()
+		if _, _, _, ok := c.waitRequest(occPath, -1); !ok {
 			r.Why = "occupant request not seen"
 			return r
 		}
-		path = "/op"
+		if t.Op != "obscancel" {
+			path = "/op"
+		}
 	}
+	var wch chan error
+	wCtx, wCancel := context.WithCancel(context.Background())
+	defer wCancel()
 	// start the call
 	res := make(chan error, 1)
 	start := time.Now()
@@ -253,10 +268,17 @@ func runTuple(transport string, t Tuple) Rec {
 	switch t.Pt {
 	case "before":
 		r.Reached = true
-	case "queued":
+	case "queued", "nstart":
 		// nothing of the call under test may be on the wire; give it a moment to reach the queue
 		time.Sleep(2 * time.Millisecond)
-		r.Reached = !returnedEarly()
+		r.Reached = !returnedEarly() && !c.sawRequest(path)
+		if !r.Reached && r.Why == "" {
+			r.Why = "the call did not queue"
+		}
+		// one more call queued behind it
+		wch = make(chan error, 1)
+		go func() { wch <- c.get(wCtx, wPath) }()
+		time.Sleep(time.Millisecond)
 	case "sent", "acked", "midbw":
 		obsv := -1
 		if t.Op == "observe" {
@@ -302,16 +324,21 @@ func runTuple(transport string, t Tuple) Rec {
 		}
 		return r
 	}
-	if t.Noise == "garbage" && !(t.Pt == "before" && r.Closing) {
-		c.noise()
+	byNoise := false
+	if t.Noise != "silent" && !(t.Pt == "before" && r.Closing) {
+		c.noise(t.Noise)
 		if t.Pt != "before" && returnedEarly() {
-			r.Reached, r.Why = false, "returned before the interruption"
-			return r
+			if t.Noise != "garbage" {
+				r.Reached, r.Why = false, "returned before the interruption"
+				return r
+			}
+			// input that is not CoAP ends a client connection, and with it the call: that is an end by peer failure
+			byNoise, r.ByNoise, r.Closing, r.EarlyRet = true, true, true, false
 		}
 	}
 	// interrupt
 	fired := time.Now()
-	if t.Pt != "before" {
+	if t.Pt != "before" && !byNoise {
 		switch t.Kind {
 		case "cancel":
 			cancel()
@@ -320,11 +347,13 @@ func runTuple(transport string, t Tuple) Rec {
 			interruptConn()
 		}
 	}
-	select {
-	case err := <-res:
-		r.Returned, r.Err, r.Ms = true, err != nil, int(time.Since(fired).Milliseconds())
-	case <-time.After(wd):
-		r.Returned = false
+	if !byNoise {
+		select {
+		case err := <-res:
+			r.Returned, r.Err, r.Ms = true, err != nil, int(time.Since(fired).Milliseconds())
+		case <-time.After(wd):
+			r.Returned = false
+		}
 	}
 	r.Others = true
 	if occ != nil {
@@ -333,6 +362,18 @@ func runTuple(transport string, t Tuple) Rec {
 		}
 		select {
 		case <-occ:
+		case <-time.After(wd):
+			r.Others = false
+		}
+	}
+	if wch != nil {
+		if !r.Closing {
+			// the waiter behind gets its turn now; it is then interrupted like the others
+			time.Sleep(2 * time.Millisecond)
+			wCancel()
+		}
+		select {
+		case <-wch:
 		case <-time.After(wd):
 			r.Others = false
 		}
@@ -354,66 +395,83 @@ func runTuple(transport string, t Tuple) Rec {
 	return r
 }
 
-// ---- udp adapter -------------------------------------------------------------------------------------------
+// ---- udp adapter: the library's own client (udp.Dial, real session, real loopback socket); the driver is the peer ------
 type udpC struct {
-	u     *conns.UDP
+	cc    *udpclient.Conn
+	peer  *net.UDPConn
 	mu    sync.Mutex
-	seen  int
+	caddr *net.UDPAddr
 	reqs  []memnet.Dgram
 	taken map[int]bool
 }
 
 func newUDP() *udpC {
 	c := &udpC{taken: map[int]bool{}}
-	c.u = conns.NewUDP(func(cfg *udpclient.Config) {
-		cfg.BlockwiseEnable = true
-		cfg.BlockwiseSZX = blockwise.SZX16
-		cfg.BlockwiseTransferTimeout = 3 * time.Second
-		cfg.TransmissionNStart = 8
-		cfg.LimitClientParallelRequests = 4
-		cfg.LimitClientEndpointParallelRequests = 1
-	})
+	var err error
+	c.peer, err = net.ListenUDP("udp4", &net.UDPAddr{IP: net.IPv4(127, 0, 0, 1)})
+	if err != nil {
+		rec.Die("listen udp peer: %v", err)
+	}
+	go func() {
+		buf := make([]byte, 4096)
+		for {
+			n, from, err := c.peer.ReadFromUDP(buf)
+			if err != nil {
+				return
+			}
+			d, perr := memnet.Parse(append([]byte(nil), buf[:n]...))
+			c.mu.Lock()
+			c.caddr = from
+			if perr == nil {
+				c.reqs = append(c.reqs, d)
+			}
+			c.mu.Unlock()
+		}
+	}()
+	c.cc, err = udp.Dial(c.peer.LocalAddr().String(),
+		options.WithBlockwise(true, blockwise.SZX16, 3*time.Second),
+		options.WithTransmission(1, 2*time.Second, 4),
+		options.WithLimitClientParallelRequest(4),
+		options.WithLimitClientEndpointParallelRequest(1),
+		options.WithErrors(func(error) {}))
+	if err != nil {
+		rec.Die("dial udp: %v", err)
+	}
 	return c
 }
 func (c *udpC) isStream() bool { return false }
 func (c *udpC) get(ctx context.Context, p string) error {
-	resp, err := c.u.CC.Get(ctx, p)
+	resp, err := c.cc.Get(ctx, p)
 	if err == nil {
-		c.u.CC.ReleaseMessage(resp)
+		c.cc.ReleaseMessage(resp)
 	}
 	return err
 }
 func (c *udpC) post(ctx context.Context, p string, body []byte) error {
-	resp, err := c.u.CC.Post(ctx, p, message.AppOctets, bytes.NewReader(body))
+	resp, err := c.cc.Post(ctx, p, message.AppOctets, bytes.NewReader(body))
 	if err == nil {
-		c.u.CC.ReleaseMessage(resp)
+		c.cc.ReleaseMessage(resp)
 	}
 	return err
 }
 func (c *udpC) observe(ctx context.Context, p string) (interface {
 	Cancel(ctx context.Context, opts ...message.Option) error
 }, error) {
-	return c.u.CC.Observe(ctx, p, func(*pool.Message) {})
+	return c.cc.Observe(ctx, p, func(*pool.Message) {})
 }
-func (c *udpC) ping(ctx context.Context) error { return c.u.CC.Ping(ctx) }
+func (c *udpC) ping(ctx context.Context) error { return c.cc.Ping(ctx) }
 func (c *udpC) write(ctx context.Context, p string) error {
-	req, err := c.u.CC.NewGetRequest(ctx, p)
+	req, err := c.cc.NewGetRequest(ctx, p)
 	if err != nil {
 		return err
 	}
-	defer c.u.CC.ReleaseMessage(req)
+	defer c.cc.ReleaseMessage(req)
 	req.SetType(message.Confirmable)
-	return c.u.CC.WriteMessage(req)
+	return c.cc.WriteMessage(req)
 }
 func (c *udpC) match(path string, observe int, block int) (memnet.Dgram, bool) {
 	c.mu.Lock()
 	defer c.mu.Unlock()
-	for _, raw := range c.u.Sess.Out(c.seen) {
-		c.seen++
-		if d, err := memnet.Parse(raw); err == nil {
-			c.reqs = append(c.reqs, d)
-		}
-	}
 	for i, d := range c.reqs {
 		if c.taken[i] {
 			continue
@@ -459,26 +517,51 @@ func (c *udpC) waitRequestBlock(path string, block int) ([]byte, int32, int64, b
 	return d.Token, d.MID, int64(block), ok
 }
 func (c *udpC) sawRequest(path string) bool { _, ok := c.match(path, -1, -1); return ok }
+func (c *udpC) send(raw []byte) {
+	c.mu.Lock()
+	to := c.caddr
+	c.mu.Unlock()
+	if to == nil {
+		if a, ok := c.cc.LocalAddr().(*net.UDPAddr); ok {
+			to = a
+		}
+	}
+	if to != nil {
+		_, _ = c.peer.WriteToUDP(raw, to)
+	}
+}
+func (c *udpC) settle() {
+	time.Sleep(500 * time.Microsecond)
+	hooks.Quiesce(c.cc, wd)
+}
 func (c *udpC) ack(mid int32) {
-	_ = c.u.Inject(memnet.Build(message.Acknowledgement, int(codes.Empty), mid, nil, nil, nil))
+	c.send(memnet.Build(message.Acknowledgement, int(codes.Empty), mid, nil, nil, nil))
+	c.settle()
 }
 func (c *udpC) respond(mid int32, tok []byte, code codes.Code, opts message.Options, pay []byte) {
-	_ = c.u.Inject(memnet.Build(message.Acknowledgement, int(code), mid, tok, opts, pay))
+	c.send(memnet.Build(message.Acknowledgement, int(code), mid, tok, opts, pay))
+	c.settle()
 }
-func (c *udpC) noise() {
-	_ = c.u.InjectNoWait([]byte{0xff, 0xff})                                                                                      // not a CoAP datagram
-	_ = c.u.InjectNoWait([]byte{0x40})                                                                                            // truncated header
-	_ = c.u.InjectNoWait(memnet.Build(message.Acknowledgement, int(codes.Content), 0x7f01, []byte{0xee, 0xee}, nil, []byte("x"))) // answer nobody waits for
-	_ = c.u.InjectNoWait(memnet.Build(message.Acknowledgement, int(codes.Empty), 0x7f02, nil, nil, nil))                          // ACK nobody waits for
-	_ = c.u.InjectNoWait(memnet.Build(message.Reset, int(codes.Empty), 0x7f03, nil, nil, nil))                                    // RST nobody waits for
-	_ = c.u.InjectNoWait(memnet.Build(message.NonConfirmable, int(codes.Content), 0x7f04, []byte{0xee, 0xef}, message.Options{{ID: message.Observe, Value: []byte{9}}}, []byte("n")))
-	c.u.Quiesce()
+func (c *udpC) noise(level string) {
+	if level == "garbage" {
+		defer func() {
+			c.send([]byte{0xff, 0xff}) // not a CoAP datagram
+			c.send([]byte{0x40})       // truncated header
+			time.Sleep(2 * time.Millisecond)
+		}()
+	}
+	c.send(memnet.Build(message.Acknowledgement, int(codes.Content), 0x7f01, []byte{0xee, 0xee}, nil, []byte("x"))) // answer nobody waits for
+	c.send(memnet.Build(message.Acknowledgement, int(codes.Empty), 0x7f02, nil, nil, nil))                          // ACK nobody waits for
+	c.send(memnet.Build(message.Reset, int(codes.Empty), 0x7f03, nil, nil, nil))                                    // RST nobody waits for
+	c.send(memnet.Build(message.NonConfirmable, int(codes.Content), 0x7f04, []byte{0xee, 0xef}, message.Options{{ID: message.Observe, Value: []byte{9}}}, []byte("n")))
+	time.Sleep(2 * time.Millisecond)
+	c.settle()
 }
-func (c *udpC) close() error          { return c.u.CC.Close() }
+func (c *udpC) close() error          { return c.cc.Close() }
 func (c *udpC) peerClose() bool       { return false }
-func (c *udpC) done() <-chan struct{} { return c.u.CC.Done() }
-func (c *udpC) addOnClose(f func())   { c.u.CC.AddOnClose(f) }
-func (c *udpC) shutdown()             { c.u.Close() }
+func (c *udpC) done() <-chan struct{} { return c.cc.Done() }
+func (c *udpC) addOnClose(f func())   { c.cc.AddOnClose(f) }
+func (c *udpC) shutdown()             { _ = c.cc.Close(); _ = c.peer.Close() }
 
 // ---- tcp adapter -------------------------------------------------------------------------------------------
 type tcpC struct {
@@ -586,7 +669,10 @@ func (c *tcpC) ack(int32)                   {}
 func (c *tcpC) respond(_ int32, tok []byte, code codes.Code, opts message.Options, pay []byte) {
 	c.t.Feed(conns.Frame(int(code), tok, opts, pay))
 }
-func (c *tcpC) noise() {
+func (c *tcpC) noise(level string) {
+	if level == "garbage" {
+		defer func() { c.t.Feed([]byte{0x0f, 0x01}); c.t.Settle() }() // reserved token length: a message-format error
+	}
 	c.t.Feed(conns.Frame(int(codes.Content), []byte{0xee, 0xee}, nil, []byte("x"))) // answer nobody waits for
 	c.t.Feed(conns.Frame(int(codes.Pong), []byte{0xee, 0xed}, nil, nil))            // pong nobody waits for
 	c.t.Feed(conns.Frame(int(codes.Empty), nil, nil, nil))                          // empty message
@@ -711,11 +797,14 @@ func Run(tuplesPath, out string) {
 	}
 	var jobs []job
 	for _, t := range ts {
-		if t.Op == "discover" {
+		switch {
+		case t.Op == "discover":
 			jobs = append(jobs, job{"udpserver", t})
-			continue
+		case t.Datagram:
+			jobs = append(jobs, job{"udp", t})
+		default:
+			jobs = append(jobs, job{"tcp", t})
 		}
-		jobs = append(jobs, job{"udp", t}, job{"tcp", t})
 	}
 	res := make([]Rec, len(jobs))
 	var wg sync.WaitGroup
